@@ -110,7 +110,14 @@ def h_namelut(ctx):
         ul = len(rest) + len(body)
         sec += enc.enc_int(ul, 4, little) + rest + body
         hdrs.append((ul, ver, cu_off, cu_len))
-    di, _ = mk_dwarfinfo(ctx, little, 8, **{which: sec})
+    # the other name table of the file exists too (one set, one name) and is asked first: each accessor answers from its own section
+    other = 'debug_pubtypes' if which == 'debug_pubnames' else 'debug_pubnames'
+    obody = enc.enc_int(0x21, 4, little) + list(b'zzz') + [0] + [0, 0, 0, 0]
+    orest = enc.enc_int(2, 2, little) + enc.enc_int(0, 4, little) + enc.enc_int(0x40, 4, little)
+    osec = enc.enc_int(len(orest) + len(obody), 4, little) + orest + obody
+    di, _ = mk_dwarfinfo(ctx, little, 8, **{which: sec, other: osec})
+    olut = di.get_pubtypes() if which == 'debug_pubnames' else di.get_pubnames()
+    ctx.check_eq('namelut/other-table', list(olut), ['zzz'])
     lut = di.get_pubnames() if which == 'debug_pubnames' else di.get_pubtypes()
     if cfg.get('order') == 'headers-first':
         lut.get_cu_headers()
